@@ -1,10 +1,16 @@
 #!/bin/bash
-# Builds the harness once (offline) so that later ./check runs hit a warm GOCACHE.
+# Builds the harness once (offline) so that later ./check runs hit a warm GOCACHE
+# (plain, instrumented/verif-tagged and -race variants).
 set -e
 cd "$(dirname "$0")"
 export GOFLAGS=-mod=mod GOPROXY=off GOSUMDB=off GOTOOLCHAIN=local
 B="$(mktemp -d /var/tmp/verif-setup.XXXXXX)"; trap 'rm -rf "$B"' EXIT
 cp harness/go.mod "$B/go.mod"; cp /repo/go.sum "$B/go.sum"
-(cd harness && go build -modfile="$B/go.mod" -o "$B/vcheck" ./cmd/vcheck)
+(cd harness && go build -modfile="$B/go.mod" -o "$B/vcheck" ./cmd/vcheck && go build -modfile="$B/go.mod" -o "$B/instr" ./cmd/instr)
 "$B/vcheck" list >/dev/null
+"$B/instr" /repo "$B/itree" >/dev/null
+sed "s#=> /repo#=> $B/itree#" harness/go.mod > "$B/go.sched.mod"; cp /repo/go.sum "$B/go.sched.sum"
+(cd harness && go build -tags verif -modfile="$B/go.sched.mod" -o "$B/vsched" ./cmd/vsched)
+cp "$B/go.mod" "$B/go.race.mod"; cp "$B/go.sum" "$B/go.race.sum"
+(cd harness && go build -race -modfile="$B/go.race.mod" -o "$B/vrace" ./cmd/vrace)
 echo setup ok
